@@ -5,6 +5,7 @@ import (
 	"fmt"
 	"math"
 	"reflect"
+	"time"
 
 	"github.com/ossrs/go-oryx-lib/rtmp"
 	"verifharness/rp"
@@ -107,7 +108,11 @@ func init() {
 		var sent []item
 		closed := false
 		for k, s := range cs.Steps {
-			if s.Op != "peer" && !closed {
+			laterInline := false
+			for _, s2 := range cs.Steps[k:] {
+				laterInline = laterInline || s2.Op == "send_inline"
+			}
+			if s.Op != "peer" && !closed && !laterInline {
 				// the peer has said everything (its items all come first): a call that wants more than the
 				// specification says meets the end of the stream instead of blocking forever
 				closed = true
@@ -131,6 +136,51 @@ func init() {
 				}
 				if err := samePending(pa, s.Pending); err != nil {
 					return rp.Fail(i, "step %d after sending %s: %v", k, s.P.K, err)
+				}
+			case "send_inline":
+				// the peer's answer is put on A's input, read and decoded by A's reader while A's WritePacket is
+				// still inside the transport write (one-shot gate on A's output)
+				type dec struct {
+					kind string
+					err  error
+				}
+				res := make(chan dec, 1)
+				a.Out.WriteGate = func(call int, p []byte) error {
+					a.Out.WriteGate = nil
+					if err := peer.WritePacket(s.It.P.Build(c.Seed), 1); err != nil {
+						rp.Bug("peer write failed: %v", err)
+					}
+					go func() {
+						m, err := pa.ReadMessage()
+						if err != nil {
+							res <- dec{"readerr", err}
+							return
+						}
+						pkt, err := pa.DecodeMessage(m)
+						if err != nil {
+							res <- dec{"error", err}
+							return
+						}
+						res <- dec{typeName(pkt), nil}
+					}()
+					select {
+					case d := <-res:
+						res <- d
+					case <-time.After(20 * time.Second):
+						res <- dec{"stall", nil}
+					}
+					return nil
+				}
+				if err := pa.WritePacket(s.P.Build(c.Seed), 1); err != nil {
+					return rp.Fail(i, "step %d: WritePacket(%s) failed: %v", k, s.P.K, err)
+				}
+				d := <-res
+				if d.kind != s.Out {
+					return rp.Fail(i, "step %d: the answer %s arriving while the request %s(tid %v) was being handed to the transport decoded as %s (err %v), specification says %s",
+						k, describe(s.It), s.P.K, rtmpx.NumOf(s.P.Tid), d.kind, d.err, s.Out)
+				}
+				if err := samePending(pa, s.Pending); err != nil {
+					return rp.Fail(i, "step %d after %s answered during its write: %v", k, s.P.K, err)
 				}
 			case "recv":
 				m, err := pa.ReadMessage()
